@@ -24,8 +24,9 @@ ASSUMPTIONS = [
     "accumulated error bound is propagated through scalings",
     "NaN/inf arguments are outside the alphabet",
     "coherence: before every step all derived public quantities of the object are read once; after the step they are "
-    "compared bit for bit with those of a fresh object constructed from the reached primary attributes (same float "
-    "corners, n, values): both are the same functions of the same floats, so equality is exact; states from which no "
+    "compared with those of a fresh object constructed from the reached primary attributes (same float corners, n, "
+    "values): integers and index tuples exactly, floating-point quantities within 1e-12 of their largest magnitude (both "
+    "are the same functions of the same floats; a stale quantity is off by a finite fraction, not by rounding); states from which no "
     "fresh object can be constructed are left to the invariant / conformance oracles",
     "in-place rotation of a mesh that is shared with a live Field (field.mesh.rotate90(inplace=True)) is outside the "
     "alphabet: a Field is rotated through Field.rotate90; translate/scale of a field go through field.mesh in place",
